@@ -329,7 +329,7 @@ def generator_sorted_dedup(ctx, rule):
                                  "counts are inflated"})
 
 
-def counters(ctx, rule):
+def counters(ctx, rule, need_clear=True):
     """counter vector: reset and resized to the record count before counting; record count +1 per add"""
     r = _prepare_chain(ctx, rule)
     if r is None:
@@ -364,10 +364,13 @@ def counters(ctx, rule):
         z = sy.operand(t["args"][2])
         npth = U.field_path(n)
         if npth is not None and npth[0] == "arg" and npth[1] == 1 and S.const_value(z) == 0 \
-                and all(cfg.dominates(bi, u) for u in unchecked) and any(cfg.dominates(c, bi) for c in clears):
+                and all(cfg.dominates(bi, u) for u in unchecked) and (not need_clear or any(cfg.dominates(c, bi) for c in clears)):
             ok = True
             lenfield = npth[2][-1]
-    if ok:
+    if ok and not need_clear:
+        ctx.ok(rule, key, b.where(), "counters are resized to the index's record count (field '%s') before any unchecked access" % lenfield,
+               nontrivial=True)
+    elif ok:
         ctx.ok(rule, key, b.where(), "counters are cleared, then resized with zeros to the index's record count "
                "(field '%s') before any unchecked access" % lenfield, nontrivial=True)
     else:
@@ -518,3 +521,39 @@ def unfinished_prefix_clip(ctx, rule):
                 ctx.fail(rule, key, where(g.body, g.bi),
                          "the Jaccard gate no longer clips the record word for an unfinished query",
                          {"witness": "query 'a' against title 'abcdefgh': similarity 1/8"})
+
+
+def grams_from_whole_words(ctx, rule):
+    """the gram generator feeds every word's full character range (slice.0 .. slice.1) of the normalised text to the gram iterator"""
+    idx_adt, producers = _index_bodies(ctx)
+    if not ctx.floor(rule, "gram_producers", len(producers), 1):
+        return
+    for p in producers:
+        sy = ctx.sym(p)
+        n = 0
+        for bi, t in p.calls():
+            if U.callee_is(t, "Trigrams::trigrams") or (t.get("rcn") or "").endswith("TrigramIter::new"):
+                n += 1
+                recv = S.strip_refs(sy.operand(t["args"][0]))
+                key = "whole-word:%s" % p.id
+                ok = False
+                if recv[0] == "call" and recv[1].endswith("Index::index"):
+                    base = U.field_path(recv[2][0])
+                    rng = S.strip_refs(recv[2][1])
+                    if base and base[2] == ["chars"] and rng[0] == "agg" and rng[2].endswith("Range::Range"):
+                        def word_field(x, names):
+                            x = S.strip_refs(x)
+                            got = []
+                            while isinstance(x, tuple) and x and x[0] == "field":
+                                got.append(str(x[2]))
+                                x = S.strip_refs(x[1])
+                            nxt = any(isinstance(y, tuple) and y and y[0] == "call" and y[1].endswith("Iterator::next") for y in S.walk(x))
+                            return got[::-1][-2:] == names and nxt
+                        ok = word_field(rng[3][0], ["slice", "0"]) and word_field(rng[3][1], ["slice", "1"])
+                if ok:
+                    ctx.ok(rule, key, where(p, bi, t), "grams are taken from text.chars[word.slice.0 .. word.slice.1] of every word", nontrivial=True)
+                else:
+                    ctx.fail(rule, key, where(p, bi, t), "grams are not taken from the whole word `chars[word.slice.0 .. word.slice.1]`: %s"
+                             % S.show(recv, p)[:140],
+                             {"witness": "English store: title 'walking shoes', query 'king' — the suffix cut off by the stemmer is never indexed"})
+        ctx.floor(rule, "gram_iterator_uses", n, 1, p.where())
